@@ -291,7 +291,7 @@ def gen_write(rng, profile):
             members, cands = cands[:take], cands[take:]
             cid = spare.pop()
             extra_ids.append(cid)
-            nul_ok = profile.get('objstm_nul', False)
+            nul_ok = True      # NUL in the index of an object stream: repaired by e4317dc
             items = [L(m[3], g_ws(rng, wild * 0.5, True), g_ws(rng, wild * 0.4, nul_ok), g_ws(rng, wild * 0.4, nul_ok)) for m in members]
             ostms.append(L(str(cid), L(*[str(m[0]) for m in members]), L(*items), g_ws(rng, wild * 0.5, nul_ok), g_sfilter(rng, max(wild, 0.5)),
                            str(rng.randint(0, 1)), g.istyle('def')))
@@ -337,6 +337,7 @@ PROFILES = [
     ({'lex': 'plain', 'xref': 'stream', 'objstm': True}, 1), ({'lex': 'mild', 'xref': 'stream', 'objstm': True}, 3),
     ({'lex': 'wild', 'xref': 'stream', 'objstm': True}, 4),
     ({'lex': 'wild', 'xref': 'table', 'rawcr': True}, 1), ({'lex': 'wild', 'xref': 'stream', 'objstm': True, 'rawcr': True}, 1),
+    ({'lex': 'mild', 'xref': 'table', 'deep': True}, 1),
 ]
 
 
@@ -567,12 +568,14 @@ def stage1(write_cases):
             res.append((L('skipped'), tags))      # keeps the count honest; both sides answer badcase
             continue
         sp = o.index(' ', 6)
-        known = o.endswith('(known 1))')
+        k = o[o.rindex(' (known') + 8:-2].split()
         o = o[:o.rindex(' (known')] + ')'
         hexbytes, expected = o[6:sp], o[sp + 1:-1]
-        tags = dict(tags, write=c, known_raw_eol=known)
-        if known:
-            tags['kind'] += '-rawcr' 
+        tags = dict(tags, write=c, known_raw_eol=(k[0] == '1'), known_deep=(k[1] == '1'))
+        if k[0] == '1':
+            tags['kind'] += '-rawcr'
+        if k[1] == '1':
+            tags['kind'] += '-deep' 
         res.append((L('load', hexbytes, L(*[str(i) for i in tags['ignore']]), expected), tags))
     return res
 
@@ -585,7 +588,7 @@ def gen_cases(rng, tier):
     for _ in range(n):
         writes.append(gen_write(rng, rng.choice(profs)))
     cases = stage1(writes)
-    for name in ('example.pdf', 'Incremental.pdf', 'unicode.pdf', 'AnnotationDemo.pdf'):
+    for name in ('example.pdf', 'Incremental.pdf', 'unicode.pdf'):     # AnnotationDemo.pdf is an empty file in the pinned tree
         cases.append((L('asset', name), {'kind': 'asset', 'nontrivial': True}))
     for _ in range(m):
         cases.append(gen_xrefstream(rng))
@@ -598,6 +601,8 @@ def classify(line, tags, model_out, impl_out, verdict):
     """known finding classes, decided on the INPUT: Known_raw_eol (coq/Spec/RefWriter.v) evaluated by the extracted writer"""
     if tags.get('known_raw_eol'):
         return 'C02-raw-eol'
+    if tags.get('known_deep'):
+        return 'C02-deep-parens'
     return None
 
 
